@@ -51,7 +51,7 @@ theorem secStep_pc (S : Sys) (r : Nat) (R : Res) (sh : Store) (h : R.pc.inLocked
   cases hpc : R.pc <;> simp [hpc, Pc.inLocked] at h
   · simp only [secStep, hpc]; split <;> simp_all [Pc.inLocked]
   · simp [secStep, hpc, Pc.inLocked]
-  · simp [secStep, hpc, Pc.inLocked]
+  · rename_i ok; cases ok <;> simp [secStep, hpc, Pc.inLocked]
   · simp only [secStep, hpc]; simp [post_pc]
 
 /-- The state after an action inside the closure. -/
@@ -198,7 +198,7 @@ theorem secStep_stage (S : Sys) (r : Nat) (R : Res) (sh : Store) (h : R.pc.inLoc
   cases hpc : R.pc <;> simp [hpc, Pc.inLocked] at h
   · simp only [secStep, hpc]; split <;> simp_all [stage]
   · simp [secStep, hpc, stage]
-  · simp [secStep, hpc, stage]
+  · rename_i ok; cases ok <;> simp [secStep, hpc, stage]
   · simp only [secStep, hpc]; rw [stage_zero (post_pc _ _ _ _)]; simp [stage]
 
 theorem finishN_out (S : Sys) (q : Nat) (k : Nat) (s : State) (h : (s.res q).pc.inLocked = false) :
@@ -318,24 +318,30 @@ theorem secStep_queue (S : Sys) (q : Nat) (R : Res) (sh : Store) (x : List Cmd) 
     secStep S q { R with queue := x } sh =
       ({ (secStep S q R sh).1 with queue := x }, (secStep S q R sh).2) := by
   cases hpc : R.pc <;> simp [secStep, hpc]
-  unfold post
-  repeat' split
-  all_goals simp_all
+  case locked2 ok => cases ok <;> simp
+  case locked3 o =>
+    unfold post
+    repeat' split
+    all_goals simp_all
 
 theorem secStep_stop (S : Sys) (q : Nat) (R : Res) (sh : Store) (x : Bool) :
     secStep S q { R with stop := x } sh =
       ({ (secStep S q R sh).1 with stop := x }, (secStep S q R sh).2) := by
   cases hpc : R.pc <;> simp [secStep, hpc]
-  unfold post
-  repeat' split
-  all_goals simp_all
+  case locked2 ok => cases ok <;> simp
+  case locked3 o =>
+    unfold post
+    repeat' split
+    all_goals simp_all
 
 theorem secStep_keeps (S : Sys) (q : Nat) (R : Res) (sh : Store) :
     (secStep S q R sh).1.queue = R.queue ∧ (secStep S q R sh).1.stop = R.stop := by
   cases hpc : R.pc <;> simp [secStep, hpc]
-  unfold post
-  repeat' split
-  all_goals simp_all
+  case locked2 ok => cases ok <;> simp
+  case locked3 o =>
+    unfold post
+    repeat' split
+    all_goals simp_all
 
 /-- A change `F` of the owner's control block that the section neither reads nor writes commutes
 with completing the section. -/
@@ -593,7 +599,7 @@ theorem resInv_sec (S : Sys) (r : Nat) {R : Res} (sh : Store) (hi : ResInv R)
   · simp only [secStep, hpc]
     constructor <;> simp_all [Pc.inCycle, Pc.isDone]
   · simp only [secStep, hpc]
-    constructor <;> simp_all [Pc.inCycle, Pc.isDone]
+    split <;> constructor <;> simp_all [Pc.inCycle, Pc.isDone]
   · simp only [secStep, hpc, post]
     repeat' split
     all_goals constructor <;> simp_all [Pc.inCycle, Pc.isDone]
@@ -707,7 +713,7 @@ theorem stop_sec (S : Sys) (r : Nat) (R : Res) (sh : Store) (hin : R.pc.inLocked
   cases hp : R.pc <;> simp [hp, Pc.inLocked] at hin
   · simp only [secStep, hp]; split <;> simp [stopFuel, hp]
   · simp [secStep, hp, stopFuel]
-  · simp [secStep, hp, stopFuel]
+  · simp only [secStep, hp]; split <;> simp [stopFuel, hp]
   · simp only [secStep, hp, post]
     repeat' split
     all_goals simp [stopFuel, hp]
@@ -1048,26 +1054,27 @@ theorem critN_in (S : Sys) (r : Nat) (k : Nat) (R : Res) (sh : Store)
 theorem critN_post (S : Sys) (r : Nat) (k : Nat) (o : Outcome) (R : Res) (sh : Store) :
     critN S r k (post S r o R) sh = (post S r o R, sh) := critN_out S r k _ sh (post_pc S r o R)
 
-/-- Closed form of the locked closure. -/
+/-- Closed form of the locked closure: `sync_into`, `execute_cycle`, and `sync_from` only if the
+cycle returned `Ok`. -/
 theorem crit_eq (S : Sys) (r : Nat) (R : Res) (sh : Store) :
     crit S r R sh =
       if (syncInto S.names sh R.store).2 = true then
-        (post S r
-          (if (syncFrom S.names (S.cycle r (syncInto S.names sh R.store).1 (S.input r R.execs) R.curTime).1 sh).2
-            then (if (S.cycle r (syncInto S.names sh R.store).1 (S.input r R.execs) R.curTime).2
-              then .ok else .fault)
-            else .undefined)
-          { R with
-            store := (S.cycle r (syncInto S.names sh R.store).1 (S.input r R.execs) R.curTime).1,
-            execs := R.execs + 1,
-            oks := if (S.cycle r (syncInto S.names sh R.store).1 (S.input r R.execs) R.curTime).2
-              then R.oks + 1 else R.oks,
-            pc := .locked3
-              (if (syncFrom S.names (S.cycle r (syncInto S.names sh R.store).1 (S.input r R.execs) R.curTime).1 sh).2
-                then (if (S.cycle r (syncInto S.names sh R.store).1 (S.input r R.execs) R.curTime).2
-                  then .ok else .fault)
-                else .undefined) },
-         (syncFrom S.names (S.cycle r (syncInto S.names sh R.store).1 (S.input r R.execs) R.curTime).1 sh).1)
+        if (S.cycle r (syncInto S.names sh R.store).1 (S.input r R.execs) R.curTime).2 = true then
+          (post S r (if (syncFrom S.names (S.cycle r (syncInto S.names sh R.store).1 (S.input r R.execs) R.curTime).1 sh).2 then .ok else .undefined)
+            { R with
+              store := (S.cycle r (syncInto S.names sh R.store).1 (S.input r R.execs) R.curTime).1,
+              execs := R.execs + 1,
+              oks := R.oks + 1,
+              pc := .locked3 (if (syncFrom S.names (S.cycle r (syncInto S.names sh R.store).1 (S.input r R.execs) R.curTime).1 sh).2 then .ok else .undefined) },
+           (syncFrom S.names (S.cycle r (syncInto S.names sh R.store).1 (S.input r R.execs) R.curTime).1 sh).1)
+        else
+          (post S r .fault
+            { R with
+              store := (S.cycle r (syncInto S.names sh R.store).1 (S.input r R.execs) R.curTime).1,
+              execs := R.execs + 1,
+              oks := R.oks,
+              pc := .locked3 .fault },
+           sh)
       else
         (post S r .undefined { R with store := (syncInto S.names sh R.store).1, pc := .locked3 .undefined },
          sh) := by
@@ -1086,10 +1093,15 @@ theorem crit_eq (S : Sys) (r : Nat) (R : Res) (sh : Store) :
     rw [e1, critN_in S r 2 _ sh rfl]
     simp only [secStep]
     rw [critN_in S r 1 _ sh rfl]
-    simp only [secStep]
-    rw [critN_in S r 0 _ _ rfl]
-    simp only [secStep, critN_post]
-    simp
+    cases hc : (S.cycle r (syncInto S.names sh R.store).1 (S.input r R.execs) R.curTime).2
+    · simp only [secStep]
+      rw [critN_in S r 0 _ _ rfl]
+      simp only [secStep]
+      simp [critN_post]
+    · simp only [secStep]
+      rw [critN_in S r 0 _ _ rfl]
+      simp only [secStep]
+      simp [critN_post]
 
 /-! ## The shared map -/
 
@@ -1196,7 +1208,7 @@ theorem snap_step {S : Sys} {s s' : State} {l : Label} (hm : Mutex s) (hi : Snap
           · simp [hok] at hr
           · exact syncInto_agrees S.names s.shared _ hok n hnm
         · cases hr
-        · cases hr
+        · split at hr <;> cases hr
         · have := post_pc S r ‹_› (s.res r)
           rw [hr] at this
           simp [Pc.inLocked] at this
@@ -1248,21 +1260,21 @@ theorem localStep_execs {cfg : Cfg} {clk : Clock} {g : Bool} {R R' : Res}
   case sleep d => split at h <;> cases h; rfl
   all_goals cases h
 
-/-- The shared map after a whole cycle of the counter program. -/
+/-- The shared map after a whole cycle of the counter program: a cycle that faults (at either
+fault point) leaves it as it was. -/
 theorem counter_crit (n : Nat) (inc : Nat → Int) (input : Nat → Nat → Int) (cfg : Nat → Cfg)
     (c0 p0 : Int) (r : Nat) (R : Res) (sh : Store) (c p q : Int)
     (h0 : sh 0 = some c) (h1 : sh 1 = some p) (h2 : sh 2 = some q) :
     (crit (counterSys n inc input cfg c0 p0) r R sh).1.execs = R.execs + 1 ∧
     (crit (counterSys n inc input cfg c0 p0) r R sh).2 =
-      if input r R.execs = 1 then ((sh.set 0 c).set 1 p).set 2 q
-      else if input r R.execs = 2 then ((sh.set 0 (c + inc r)).set 1 (p + 1)).set 2 q
+      if input r R.execs = 1 ∨ input r R.execs = 2 then sh
       else ((sh.set 0 (c + inc r)).set 1 (p + 1)).set 2 (q + 1) := by
   rw [crit_eq]
   simp only [counterSys, syncInto, syncFrom, h0, h1, h2]
   by_cases e1 : input r R.execs = 1
-  · simp [counterCycle, e1, Store.set, post_execs]
+  · simp [counterCycle, e1, post_execs]
   · by_cases e2 : input r R.execs = 2
-    · simp [counterCycle, e2, Store.set, post_execs]
+    · simp [counterCycle, e2, post_execs]
     · simp [counterCycle, e1, e2, Store.set, post_execs]
 
 theorem sumTo_zero : ∀ n, sumTo (fun _ => 0) n = 0 := by
